@@ -25,9 +25,42 @@ def get_track(chart, header: str):
     return chart.instrument_tracks[L.Instrument[iname]][L.Difficulty[dname]]
 
 
-def parse_track(ctx, res: int, tempo, lines: list[str], header: str, rc, fmt: int = 0):
+def _decoys(header: str, lines: list[str], mode: int) -> dict[str, list[str]]:
+    """Other instrument sections around the one under test (state must not travel from one track to
+    the next).  mode: 0 none, 1 one before, 2 one after, 3 both.  Decoy bodies are well-formed: prefixes
+    of the target body that end at a tick boundary and contain no forced flag on their first note."""
+    if not mode:
+        return {header: lines}
+    others = [h for h in S.HEADER_LIST if h != header]
+    k = sum(len(x) for x in lines[:3]) + len(lines)
+    before, after = others[k % 39], others[(k * 7 + 3) % 39]
+    if before == after:
+        after = others[(k * 7 + 4) % 39]
+
+    def cut(n):
+        body = list(lines[:n])
+        # do not cut inside a tick group
+        while body and n < len(lines) and lines[n].split(" ", 1)[0] == body[-1].split(" ", 1)[0]:
+            body.pop()
+        first_tick = body[0].split(" ", 1)[0] if body else None
+        if any(b.split(" ", 1)[0] == first_tick and " = N 5 " in b for b in body):
+            return []
+        return body
+
+    out = {}
+    if mode & 1:
+        out[before] = cut(max(1, len(lines) // 2))
+    out[header] = lines
+    if mode & 2:
+        out[after] = cut(len(lines))
+    return out
+
+
+def parse_track(ctx, res: int, tempo, lines: list[str], header: str, rc, fmt: int = 0, decoy: int | None = None):
     """Returns (chart, track) or (None, None) after reporting a violation."""
-    text = chart_text(res, tempo, {header: lines}, fmt=fmt)
+    if decoy is None:
+        decoy = (fmt >> 2) % 4 if fmt else 0
+    text = chart_text(res, tempo, _decoys(header, lines, decoy), fmt=fmt)
     try:
         chart = L.parse(text)
     except Exception as e:  # noqa: BLE001
